@@ -87,6 +87,7 @@ DEFAULT_CFG = dict(
   condim_menu=[3],
   margin=False,
   geom_adhesion=False,  # passive contact adhesion (geom/pair `adhesion` attribute)
+  multi_pulley=0.0,  # probability of one extra spatial tendon with 2-4 branches separated by pulleys (post-pass, own random stream)
   nkey=0,
   nuserdata=0,
   unnorm=False,
@@ -479,6 +480,29 @@ def make_spec(cfg) -> dict:
     spec["option"].setdefault("wind", r.vec(3, -2, 2))
     spec["option"].setdefault("density", r.u(0.5, 50))
     spec["option"].setdefault("viscosity", r.u(0.0, 0.5))
+  if cfg.get("multi_pulley") and len(sites) >= 2:
+    # post-pass with its own stream: a spatial tendon with several pulleys (each branch is divided by the divisor of the LAST pulley before it,
+    # divisors do not compound), optionally starting with a pulley, optionally wrapping a geom inside a branch
+    rp = R([int(cfg["seed"]), 0x9A11])
+    if rp.p(float(cfg["multi_pulley"])):
+      path = []
+      nbranch = rp.i(2, 4)
+      lead = rp.p(0.3)
+      for bi in range(nbranch):
+        if bi > 0 or lead:
+          path.append(["pulley", rp.ch([2.0, 2.0, 3.0, 0.5, rp.u(0.5, 3)])])
+        ns = rp.i(2, 3)
+        prev = None
+        for si in range(ns):
+          cand = [x for x in sites if x != prev]
+          sname = str(rp.ch(cand))
+          if si > 0 and cfg.get("wrap") and geoms_wrap and rp.p(0.25):
+            path.append(["geom", rp.ch(geoms_wrap)[0]])
+          path.append(["site", sname])
+          prev = sname
+      t = dict(name=f"t{len(spec['tendons'])}", kind="spatial", path=path)
+      _tendon_params(rp, cfg, t)
+      spec["tendons"].append(t)
   if cfg.get("geom_adhesion"):
     # post-pass with its own stream, so that the rest of the spec is the same with and without adhesion
     ra = R([int(cfg["seed"]), 0xAD])
@@ -819,6 +843,7 @@ def scene_strategy(types=("sphere", "capsule", "box"), nmax=5, **over):
     condim_menu=st.sampled_from([[3], [1, 3, 4, 6]]),
     seed=st.integers(0, 2**31 - 1),
     static=st.sampled_from([0.0, 0.3]),
+    late_plane=st.just(False),  # True: the plane sits on a static body declared after the moving bodies (highest geom id), origin offset laterally, optionally tilted
   )
   for k, v in over.items():
     d[k] = v if isinstance(v, st.SearchStrategy) else st.just(v)
@@ -894,7 +919,17 @@ def make_scene(sc) -> dict:
       pg["condim"] = cd
     if sc["margin"] and r.p(0.5):
       pg["margin"] = r.u(0, 0.03)
-    spec["world_geoms"].append(pg)
+    if sc.get("late_plane"):
+      # own stream: everything else of the scene is the same with and without this option.  A plane shifted inside itself is the same surface, so
+      # the contacts do not depend on the offset; the broadphase plane filter does (it measures from the plane's origin along its normal)
+      rl = R([int(sc["seed"]), 0x91A])
+      tilt = rl.ch([0.0, 0.0, rl.u(-0.25, 0.25)])
+      ax = rl.unit()
+      q = [math.cos(tilt / 2), math.sin(tilt / 2) * ax[0], math.sin(tilt / 2) * ax[1], 0.0]
+      nq = math.sqrt(sum(x * x for x in q))
+      bodies.append(dict(name="bplane", parent=-1, pos=r6([rl.u(-3, 3), rl.u(-3, 3), 0.0]), quat=r6([x / nq for x in q]), joints=[], geoms=[pg], sites=[], cameras=[], lights=[]))
+    else:
+      spec["world_geoms"].append(pg)
   names = [f"g{i}" for i in range(sc["n"] + (1 if sc["plane"] else 0))]
   for k in range(sc["pairs"]):
     i1, i2 = r.g.choice(len(names), size=2, replace=False)
@@ -907,7 +942,7 @@ def make_scene(sc) -> dict:
       p["solref"] = [r.u(0.005, 0.05), r.u(0.3, 1.5)]
     if r.p(0.3):
       p["solreffriction"] = [r.u(0.005, 0.05), r.u(0.3, 1.5)]
-    t1 = next(b["geoms"][0]["type"] for b in bodies if b["geoms"][0]["name"] == names[i1]) if i1 < sc["n"] else "plane"
+    t1 = next(b["geoms"][0]["type"] for b in bodies if b["geoms"][0]["name"] == names[i1])  if i1 < sc["n"] else "plane"
     t2 = next(b["geoms"][0]["type"] for b in bodies if b["geoms"][0]["name"] == names[i2]) if i2 < sc["n"] else "plane"
     if sc["margin"] and not (t1 in ("box", "mesh") and t2 in ("box", "mesh")) and r.p(0.5):
       p["margin"] = r.u(0, 0.05)
